@@ -100,6 +100,7 @@ def run(ctx):
     ctx.floor = 10
     P = ctx.prog
     region = verify_before_release(ctx)
+    culprits_accessor(ctx)
     if not ctx.core_only:
         # blame under re-randomization: the package handed to the core aggregation shifts every verifying share
         from .c17 import randomized_public_package
